@@ -28,7 +28,7 @@ ASSUMPTIONS = [
     'ordinary keys that fall lexicographically inside a queue key range are outside the generated domain',
 ]
 
-PREFIXES = [None, 'a', 'b', 'a-5', 'a-', 'ab', '', 'a-500000000000000']
+PREFIXES = [None, 'a', 'b', 'a-5', 'a-', 'ab', '', 'a-500000000000000', 'q5', 'w-49', '2025-05']
 ORDINARY = [-5, 10**15, 10**15 + 7, 'zzz', 'b0', b'a', ('a', 1), 'a', 'ab', 0, 999999999999999]
 VALS = [1, 'v', ('B', 3), ('B', 4), None]
 MISS = 'EMPTY'
@@ -145,10 +145,13 @@ class Sequential(SubCheck):
                 if name == 'push':
                     _, v, prefix, side, ttl = op
                     value = mkv(v)
-                    if case['origin'] == 'index':
-                        key = obj.push(value, prefix, side)
-                    else:
-                        key = obj.push(value, prefix=prefix, side=side, expire=ttl)
+                    try:
+                        if case['origin'] == 'index':
+                            key = obj.push(value, prefix, side)
+                        else:
+                            key = obj.push(value, prefix=prefix, side=side, expire=ttl)
+                    except Exception as exc:  # a queue operation with valid arguments never raises
+                        fail('operation-raised/%s' % type(exc).__name__, 'push(prefix=%r, side=%s) raised %r' % (prefix, side, exc), op)
                     t1 = clock.peek()
                     q = queues[prefix]
                     if q:
@@ -169,10 +172,13 @@ class Sequential(SubCheck):
                     sides.add(side)
                 elif name in ('pull', 'peek'):
                     _, prefix, side = op
-                    if case['origin'] == 'index':
-                        got = obj.pull(prefix, (None, MISS), side)
-                    else:
-                        got = getattr(obj, name)(prefix=prefix, default=(None, MISS), side=side)
+                    try:
+                        if case['origin'] == 'index':
+                            got = obj.pull(prefix, (None, MISS), side)
+                        else:
+                            got = getattr(obj, name)(prefix=prefix, default=(None, MISS), side=side)
+                    except Exception as exc:
+                        fail('operation-raised/%s' % type(exc).__name__, '%s(prefix=%r, side=%s) raised %r' % (name, prefix, side, exc), op)
                     t1 = clock.peek()
                     q = queues[prefix]
                     exp = None
